@@ -457,6 +457,22 @@ def check_f(ctx, facts):
             ctx.violation('C10.f', 'registration', bad + ' (after sorting twice)', where, witness=dict(configuration='gated sub-block next to ungated blocks; getSimulator() twice'))
         else:
             ctx.ok('C10.f', 'registration', 'after two sorts every clockable leaf is registered exactly once under the driver of its nearest ancestor (2 domains)')
+        # --- a driver handed to the system constructor is the system's driver: its enable gates every block that inherits it
+        try:
+            hsc = el.find_class('HWSystem', BASE)
+            eng = D.wire('en_top')
+            for kw, what in ((dict(enable=eng), 'a gated driver without a wire'), (dict(enable=eng, wire=D.wire('clk_top')), 'a gated driver with a wire')):
+                dG = el.instantiate(cdc, ['gclk'], kw)
+                hs = el.instantiate(hsc, [], dict(clock_driver=dG))
+                got = hs.attrs.get('clockDriver')
+                if got is not dG and not (isinstance(got, ObjV) and got.attrs.get('enable') is eng):
+                    ctx.violation('C10.f', 'system-driver-argument', 'HWSystem(clock_driver=%s) installs a driver that does not carry the enable of the driver it was given: blocks that inherit '
+                                  'the system clock are never gated' % what, where, witness=dict(configuration='HWSystem(clock_driver=ClockDriver("gclk", enable=en))'))
+                    break
+            else:
+                ctx.ok('C10.f', 'system-driver-argument', 'the driver given to HWSystem(...) (with or without a wire) is installed as the system driver, enable included')
+        except (ElabError, PyExc, ElabRaise) as e:
+            ctx.note('C10.f system-driver-argument not evaluable: %s' % str(e)[:100])
         # --- a driver placed on a leaf: only that leaf changes domain, whatever was built before or after it under the same parent
         D2 = Design(facts)
         el2 = D2.el
